@@ -55,6 +55,9 @@ static inline u64 VT_mul(u64 x, u64 y, int w) {
   if (x == 1) return y;
   if (y == 1) return x;
   if (VT_ctl(x) && VT_ctl(y)) { u64 r = x * y; if (!VT_ctl(r)) return VT_bad(); return r; }
+  /* (-1) * v for a product-class v (alpha = -1 in c = alpha*t + beta*c): the negated sum stays in the ring typing */
+  if (w == 64 && x == 0xffffffffffffffffULL && VT_prod(y)) return 0 - y;
+  if (w == 64 && y == 0xffffffffffffffffULL && VT_prod(x)) return 0 - x;
   if (x >= ATOM_B0) { u64 t = x; x = y; y = t; }
 #if VERIF_NB > 0
   if (x >= ATOM_A0 && x < ATOM_A0 + VERIF_NA && y >= ATOM_B0 && y < ATOM_B0 + VERIF_NB) {
@@ -66,6 +69,9 @@ static inline u64 VT_mul(u64 x, u64 y, int w) {
   /* TAGS mode (multilinear code): every element of operand i carries the concrete tag TAG(i) = 2^(20+i); a value's tag is the set
      of operands it is a product of.  Products need disjoint tag sets (no operand twice => degree <= 1 in every operand). */
   if (VT_tag(x) && VT_tag(y)) { if ((x & y) == 0) return x | y; return VT_bad(); }
+  /* (-1) * v keeps the tag (sign is the BASIS run's business) */
+  if (VT_tag(y) && (x == 0xffffffffffffffffULL || x == 0xffffffffULL)) return y;
+  if (VT_tag(x) && (y == 0xffffffffffffffffULL || y == 0xffffffffULL)) return x;
 #endif
 #ifdef VERIF_SQ
   /* atoms='AA' (quadratic forms: norm): the square of A-atom p is the table bit W[p]; a product of two *different*
@@ -98,9 +104,11 @@ static inline u32 VT_mul32(u32 x, u32 y) {
   if (x == 1) return y;
   if (y == 1) return x;
 #ifdef VERIF_TAGS
-  if (VT_tag(x) && VT_tag(y)) return (u32)VT_mul(x, y, 32);
+  if (VT_tag(x) || VT_tag(y)) return (u32)VT_mul(x, y, 32);
 #endif
   if (VT_ctl32(x) && VT_ctl32(y)) { u64 r = VT_sx32(x) * VT_sx32(y); if (!VT_ctl(r)) return (u32)VT_bad(); return (u32)r; }
+  if (x == 0xffffffffu && VT_prod(y)) return 0u - y;
+  if (y == 0xffffffffu && VT_prod(x)) return 0u - x;
   if (VT_atom(x) && VT_atom(y)) return (u32)VT_mul(x, y, 32);
   return (u32)VT_bad();
 }
